@@ -7,11 +7,11 @@ T=$(mktemp -d /tmp/fxpverif-seed-XXXX)
 trap 'rm -rf "$T"' EXIT
 cp -r /repo/. "$T"/ ; rm -rf "$T/.git"
 cd "$T"
-PYTHONPATH=$T /venv/bin/python "$D/demo.py" > "$T/demo_clean.log" 2>&1; echo "demo on clean copy: rc=$? $(tail -1 $T/demo_clean.log | cut -c1-150)"
+FXP_REPO=$T PYTHONPATH=$T /venv/bin/python "$D/demo.py" > "$T/demo_clean.log" 2>&1; echo "demo on clean copy: rc=$? $(tail -1 $T/demo_clean.log | cut -c1-150)"
 patch -p1 --no-backup-if-mismatch < "$D/patch.diff" > "$T/patch.log" 2>&1 || { echo "PATCH FAILED"; cat "$T/patch.log"; exit 2; }
 grep -E "FAILED|fuzz|offset" "$T/patch.log" | head -3
 /venv/bin/python -m pytest -q -p no:cacheprovider --timeout=900 2>&1 | tail -1
-PYTHONPATH=$T /venv/bin/python "$D/demo.py" > "$T/demo_mut.log" 2>&1; echo "demo on patched copy: rc=$? $(tail -1 $T/demo_mut.log | cut -c1-150)"
+FXP_REPO=$T PYTHONPATH=$T /venv/bin/python "$D/demo.py" > "$T/demo_mut.log" 2>&1; echo "demo on patched copy: rc=$? $(tail -1 $T/demo_mut.log | cut -c1-150)"
 cd /verif
 for P in "$@"; do
   VERIF_REPO=$T VERIF_EVIDENCE_DIR=$T/evidence ./check $P --no-build 2>&1 | grep -E "^VIOLATION|^KNOWN|tier=" | cut -c1-220
